@@ -268,6 +268,11 @@ func (k Keeper) UpdateTokenPairERC20(ctx sdk.Context, erc20Addr, newERC20Addr co
 		return types.TokenPair{}, sdkerrors.Wrapf(types.ErrTokenPairNotFound, "token '%s' not registered", erc20Addr)
 	}
 
+	// the new address must not belong to a token pair already
+	if k.IsERC20Registered(ctx, newERC20Addr) {
+		return types.TokenPair{}, sdkerrors.Wrapf(types.ErrTokenPairAlreadyExists, "token ERC20 contract already registered: %s", newERC20Addr.String())
+	}
+
 	// Get current stored metadata
 	metadata, found := k.bankKeeper.GetDenomMetaData(ctx, pair.Denoms[0])
 	if !found {
@@ -332,8 +337,8 @@ func (k Keeper) UpdateTokenPairERC20(ctx sdk.Context, erc20Addr, newERC20Addr co
 	newID := pair.GetID()
 	// Set the new pair
 	k.SetTokenPair(ctx, pair)
-	// Overwrite the value because id was changed
-	k.SetDenomMap(ctx, pair.Denoms[0], newID)
+	// Index every denomination of the pair again (DeleteTokenPair removed all of them, the id was changed)
+	k.SetDenomsMap(ctx, pair.Denoms, newID)
 	// Add the new address
 	k.SetERC20Map(ctx, newERC20Addr, newID)
 	return pair, nil
